@@ -257,6 +257,7 @@ def was_reextended(tr, j, n):
 
 class C06(S.SchedCheck):
     pid = "C06"
+    ways = True
     props_mod = "HioModel.Props.C06"
     design_ref = "DESIGN.md §5 C06"
     technique = ("Lean 4 theorems over the shared scheduler model (extend/remove refine an ordered set; removed deeds leave the zipper; new deeds go right of the marker), "
@@ -302,6 +303,7 @@ class C06(S.SchedCheck):
         return len(obs.d["trace"]) >= 12 and any(e[1] == "doers" for e in obs.d["trace"])
 
     def oracle(self, case, obs):
+        case = S.expand_star(case)
         if S.model3(case):
             return clauses_nested(case, obs.d)
         return clauses(case, obs.d)
